@@ -91,7 +91,21 @@ func rev(m map[string]string) map[string]string {
 	return r
 }
 
+// bulk names (GenesisOpts.Bulk): filler topics/denoms "f000".. and filler tokens "g000".., the same string on both sides of the dictionary
+const maxBulk = 200
+
+func withBulk(m map[string]string, prefix string) map[string]string {
+	for i := 0; i < maxBulk; i++ {
+		n := fmt.Sprintf("%s%03d", prefix, i)
+		m[n] = n
+	}
+	return m
+}
+
 var (
+	_          = withBulk(topicDict, "f")
+	_          = withBulk(denomDict, "f")
+	_          = withBulk(tokenDict, "g")
 	topicRev   = rev(topicDict)
 	denomRev   = rev(denomDict)
 	tokenRev   = rev(tokenDict)
